@@ -1,7 +1,7 @@
 #!/bin/sh
 # tools/seed_sweep.sh "<seeds>" [ids...] : runs the quick checks under several VERIF_SEED values
 # (evidence files are not rewritten); prints one line per run.  For shaking out false alarms.
-cd /verif
+cd "$(dirname "$0")/.." || exit 2
 SEEDS="$1"; shift
 IDS="$*"
 [ -z "$IDS" ] && IDS=$(/venv/bin/python -c "import json;print(' '.join(c['property_id'] for c in json.load(open('MANIFEST.json'))['checks']))")
